@@ -111,12 +111,13 @@ func runC53(s *simrt.Sim) {
 	P := int64([]int{1, 2, 5, 10}[tp.Draw(4, "check_period_s")])
 	stay := int64([]int{0, 1, 3, 10}[tp.Draw(4, "stay_period_s")])
 	thr := tp.Range(0, 6, "threshold")
+	dictSize := 1000
 	write := func(ver int) (ProductRuleConf, error) {
 		rule := map[string]interface{}{
 			"Name": "r1", "Cond": "default_t()",
 			"accessSignConf": map[string]interface{}{"UseClientIP": true},
 			"action":         map[string]interface{}{"cmd": "CLOSE", "params": []string{}},
-			"checkPeriod":    P, "stayPeriod": stay, "threshold": thr, "accessDictSize": 1000, "prisonDictSize": 1000,
+			"checkPeriod":    P, "stayPeriod": stay, "threshold": thr, "accessDictSize": dictSize, "prisonDictSize": dictSize,
 		}
 		data, _ := json.Marshal(map[string]interface{}{"version": fmt.Sprintf("v%d", ver), "config": map[string]interface{}{"prod": []interface{}{rule}}})
 		fn := filepath.Join(c53dir, "prison.data")
@@ -149,6 +150,9 @@ func runC53(s *simrt.Sim) {
 	ndeny := 0
 	for i := 0; i < n && !s.Failed(); i++ {
 		if !nofault && tp.Chance(1, 25, "reload") {
+			// the same rule, possibly with other table sizes (always far above the number of
+			// keys in play: nothing is evicted, so the state of every key carries over)
+			dictSize = []int{1000, 1000, 100, 5000}[tp.Draw(4, "reload.dict_size")]
 			c2, err := write(i + 1)
 			if err == nil {
 				err = m.productTable.load(c2)
